@@ -24,5 +24,10 @@ ok, log, _ = vlib.cargo_build(bins, timeout=3000)
 print(log[-2000:])
 if not ok:
     sys.exit("cargo build failed")
+# anything else a claimed check wants pre-built (e.g. the pgcat binary itself for C17)
+for pid in sorted(claimed):
+    m = importlib.import_module("props." + pid.lower())
+    if hasattr(m, "setup_extra"):
+        print("setup_extra", pid, str(m.setup_extra())[-600:])
 PY
 echo setup-ok
